@@ -462,3 +462,154 @@ Proof. intros W Hh B K Ls Fp V. apply build_inv in B as (_ & _ & _ & T & _); [|a
 End WITH_SPEC2.
 End LEN.
 End VERIFY.
+
+(* ------------------------------------------------------------------ builder completeness *)
+Lemma dfs_first t : forall d, exists it rest, dfs t d = it :: rest /\ (N.of_nat d <= item_depth it)%N.
+Proof. induction t as [s v|h|a IHa b _]; intros d; cbn [dfs].
+  - eexists _, _. split; [reflexivity|cbn; lia]. - eexists _, _. split; [reflexivity|cbn; lia].
+  - destruct (IHa (S d)) as (it & rest & -> & L). eexists _, _. split; [reflexivity|lia]. Qed.
+Lemma dfs_prefix_inj : forall t t' d r r', dfs t d ++ r = dfs t' d ++ r' -> t = t' /\ r = r'.
+Proof. induction t as [s v|h|a IHa b IHb]; intros [s' v'|h'|a' b'] d r r' E; cbn [dfs] in E.
+  - inversion E; subst. auto.
+  - discriminate.
+  - destruct (dfs_first a' (S d)) as (it & rest & Ea & L). rewrite <- app_assoc, Ea in E. inversion E; subst it. cbn in L. lia.
+  - discriminate.
+  - inversion E; subst. auto.
+  - destruct (dfs_first a' (S d)) as (it & rest & Ea & L). rewrite <- app_assoc, Ea in E. inversion E; subst it. cbn in L. lia.
+  - destruct (dfs_first a (S d)) as (it & rest & Ea & L). rewrite <- app_assoc, Ea in E. inversion E; subst it. cbn in L. lia.
+  - destruct (dfs_first a (S d)) as (it & rest & Ea & L). rewrite <- app_assoc, Ea in E. inversion E; subst it. cbn in L. lia.
+  - rewrite <- !app_assoc in E. apply IHa in E as [-> E]. apply IHb in E as [-> E]. auto. Qed.
+Lemma dfs_inj t t' d : dfs t d = dfs t' d -> t = t'.
+Proof. intros E. apply (dfs_prefix_inj t t' d [] []). now rewrite !app_nil_r. Qed.
+
+Lemma map_repeat' {A B} (f : A -> B) x n : map f (repeat x n) = repeat (f x) n.
+Proof. induction n; cbn; congruence. Qed.
+
+Section COMPLETE.
+Variables Hleaf Hbranch : bytes -> bytes.
+Notation combine := (combine Hbranch).
+Notation node_of := (node_of Hleaf Hbranch).
+Notation insert := (insert Hbranch).
+Notation ins := (ins Hbranch).
+Notation run := (run Hleaf Hbranch).
+
+(* the frontier of finished left subtrees the branch vector stands for (deepest first, like the vector) *)
+Definition frontier := list (option tree).
+Definition to_br (ts : frontier) : br := map (option_map node_of) ts.
+Fixpoint flat (ts : frontier) : list item :=
+  match ts with [] => [] | o :: r => flat r ++ match o with Some t => dfs t (length r) | None => [] end end.
+Fixpoint fits (ts : frontier) : Prop :=
+  match ts with [] => True | o :: r => match o with Some t => (length r + height t <= MAXD)%nat | None => True end /\ fits r end.
+Lemma flat_nones k ts : flat (repeat None k ++ ts) = flat ts.
+Proof. induction k; cbn [repeat app flat]; [reflexivity|]. now rewrite app_nil_r. Qed.
+Lemma fits_nones k ts : fits ts -> fits (repeat None k ++ ts).
+Proof. induction k; cbn [repeat app fits]; auto. Qed.
+Lemma to_br_length ts : length (to_br ts) = length ts. Proof. apply map_length. Qed.
+
+Lemma ins_rep : forall ts t d b', fits ts -> (length ts <= d + 1)%nat -> (d + height t <= MAXD)%nat ->
+  ins (node_of t) d (to_br ts) = Ok b' ->
+  exists ts', b' = to_br ts' /\ fits ts' /\ flat ts' = flat ts ++ dfs t d /\ (exists t0 r0, ts' = Some t0 :: r0).
+Proof. induction ts as [|o r IH]; intros t d b' F L Hh E.
+  - cbn [to_br map Taproot.ins] in E. inversion E; subst b'. exists (Some t :: repeat None d ++ []).
+    split; [unfold place, to_br; cbn [length map option_map]; rewrite Nat.sub_0_r, map_app, map_repeat'; reflexivity|].
+    assert (Len : length (repeat (@None tree) d ++ []) = d) by (rewrite app_length, repeat_length; cbn [length]; lia).
+    split; [cbn [fits]; rewrite Len; split; [assumption|apply fits_nones; exact I]|].
+    split; [cbn [flat]; rewrite Len, flat_nones; reflexivity|eauto].
+  - destruct F as [Fo Fr]. cbn [length] in L. destruct (Nat.eq_dec (S (length r)) (d + 1)) as [Eq|Ne].
+    + assert (Ed : length r = d) by lia. destruct o as [tc|]; cbn [to_br map option_map Taproot.ins length] in E; rewrite map_length in E;
+        (destruct (Nat.eqb_spec (S (length r)) (d + 1)) as [_|Bad]; [|lia]).
+      * destruct d as [|d']; [discriminate|].
+        rewrite (combine_ok Hleaf Hbranch _ _ (Nat.max (height t) (height tc))) in E;
+          [|lia|eapply short_mono; [|apply node_of_short]; lia|eapply short_mono; [|apply node_of_short]; lia].
+        change (combine_tot Hbranch (node_of t) (node_of tc)) with (node_of (Node tc t)) in E.
+        destruct (IH (Node tc t) d' b' Fr ltac:(lia) ltac:(cbn [height]; lia) E) as (ts' & -> & F' & Fl & Hd).
+        exists ts'. split; [reflexivity|]. split; [assumption|]. split; [|assumption].
+        rewrite Fl. cbn [flat dfs]. rewrite Ed, <- app_assoc. reflexivity.
+      * inversion E; subst b'. exists (Some t :: r). split; [reflexivity|]. split; [cbn [fits]; split; [lia|assumption]|].
+        split; [cbn [flat]; rewrite app_nil_r, Ed; reflexivity|eauto].
+    + assert (Lb : (length (to_br (o :: r)) <= d)%nat) by (rewrite to_br_length; cbn [length]; lia).
+      rewrite ins_short in E by assumption. inversion E; subst b'.
+      exists (Some t :: repeat None (d - length (o :: r)) ++ (o :: r)). unfold place. cbn [length]. rewrite to_br_length.
+      split; [unfold to_br; cbn [map option_map]; rewrite map_app, map_repeat'; reflexivity|].
+      assert (Len : length (repeat (@None tree) (d - S (length r)) ++ o :: r) = d) by (rewrite app_length, repeat_length; cbn [length] in *; lia).
+      split; [cbn [fits]; rewrite Len; split; [assumption|apply fits_nones; cbn [fits]; auto]|].
+      split; [cbn [flat]; rewrite Len, flat_nones; reflexivity|eauto]. Qed.
+
+Lemma insert_rep ts it b' : fits ts -> insert (item_node Hleaf it) (item_depth it) (to_br ts) = Ok b' ->
+  exists ts', b' = to_br ts' /\ fits ts' /\ flat ts' = flat ts ++ [it] /\ (exists t0 r0, ts' = Some t0 :: r0).
+Proof. intros F E. unfold Taproot.insert in E.
+  destruct (N.ltb_spec TAPROOT_CONTROL_MAX_NODE_COUNT (item_depth it)) as [|D]; [discriminate|].
+  rewrite to_br_length in E. destruct (Nat.ltb_spec (N.to_nat (item_depth it) + 1) (length ts)) as [|L]; [discriminate|].
+  set (t := match it with ILeaf _ s v => Leaf s v | IHidden _ h => Hidden h end).
+  assert (En : item_node Hleaf it = node_of t) by (destruct it; reflexivity).
+  assert (Ei : dfs t (N.to_nat (item_depth it)) = [it]) by (destruct it; cbn [dfs t item_depth]; rewrite Nnat.N2Nat.id; reflexivity).
+  rewrite En in E. apply ins_rep in E; [|assumption|lia|unfold MAXD; destruct it; cbn [height t]; lia].
+  rewrite Ei in E. exact E. Qed.
+
+Lemma run_rep : forall items ts b', fits ts -> run items (to_br ts) = Ok b' ->
+  exists ts', b' = to_br ts' /\ fits ts' /\ flat ts' = flat ts ++ items /\ (items = [] \/ exists t0 r0, ts' = Some t0 :: r0).
+Proof. induction items as [|it r IH]; intros ts b' F E; cbn [Taproot.run] in E.
+  - inversion E; subst. exists ts. rewrite app_nil_r. auto.
+  - destruct (insert _ _ (to_br ts)) as [b1|] eqn:I; [|discriminate].
+    destruct (insert_rep ts it b1 F I) as (ts1 & -> & F1 & Fl1 & Hd1).
+    destruct (IH ts1 b' F1 E) as (ts' & -> & F' & Fl' & Hd'). exists ts'. split; [reflexivity|]. split; [assumption|].
+    split; [rewrite Fl', Fl1, <- app_assoc; reflexivity|]. right. destruct Hd' as [->|H]; [|assumption].
+    cbn [Taproot.run] in E. inversion E as [E']. apply (f_equal (map (fun o : option node => match o with Some _ => true | None => false end))) in E'.
+    unfold to_br in E'. rewrite !map_map in E'. destruct Hd1 as (t0 & r0 & ->). destruct ts' as [|[t1|] r1]; cbn in E'; try discriminate; eauto. Qed.
+
+(* only depth-first walks of trees of height <= 128 leave the builder complete, and the walk determines the tree *)
+Theorem builder_complete items b : run items [] = Ok b -> is_complete b = true ->
+  exists t, (height t <= MAXD)%nat /\ items = dfs t 0 /\ b = [Some (node_of t)] /\ forall t', items = dfs t' 0 -> t' = t.
+Proof. intros R C. destruct (run_rep items [] b I R) as (ts & -> & F & Fl & _). cbn [flat app] in Fl.
+  destruct ts as [|[t|] [|o r]]; cbn [to_br map option_map is_complete] in C; try discriminate.
+  exists t. cbn [fits length Nat.add] in F. split; [tauto|]. cbn [flat length] in Fl. split; [now rewrite <- Fl|]. split; [reflexivity|].
+  intros t' E. rewrite <- Fl in E. cbn [app] in E. symmetry. now apply dfs_inj in E. Qed.
+(* the builder never reaches a state whose last entry is None through its API, so finalize's `expect` cannot fire *)
+Theorem run_head_some items b : run items [] = Ok b -> b = [] \/ exists n r, b = Some n :: r.
+Proof. intros R. destruct (run_rep items [] b I R) as (ts & -> & _ & Fl & [->|(t0 & r0 & ->)]).
+  - cbn in R. inversion R. now left. - right. cbn. eauto. Qed.
+End COMPLETE.
+
+Section REFUSE.
+Variables Hleaf Hbranch Htweak : bytes -> bytes.
+Variable scalar_ok : bytes -> bool.
+Variable tweak : bytes -> bytes -> option (bytes * bool).
+(* anything that is not the depth-first walk of a tree of height <= 128 is refused with a TaprootBuilderError: by an add_* call
+   or by finalize; it is never accepted and finalize's `expect` cannot fire on a state built through the API *)
+Theorem build_refuses items P : (forall t, (height t <= MAXD)%nat -> items <> dfs t 0) ->
+  exists e, build Hleaf Hbranch Htweak scalar_ok tweak items P = Fail e.
+Proof. intros N. unfold build. destruct (run Hleaf Hbranch items []) as [b|e] eqn:R; [|eauto].
+  destruct (run_head_some Hleaf Hbranch items b R) as [->|(n & r & ->)]; [cbn; eauto|].
+  destruct r as [|y r].
+  - destruct (builder_complete Hleaf Hbranch items _ R eq_refl) as (t & Hh & E & _). exfalso. exact (N t Hh E).
+  - cbn. eauto. Qed.
+(* conversely the walk of such a tree is only ever stopped by secp256k1 refusing the tweak (probability ~2^-128) *)
+Theorem build_accepts t P : (height t <= MAXD)%nat ->
+  build Hleaf Hbranch Htweak scalar_ok tweak (dfs t 0) P = from_node_info Htweak scalar_ok tweak P (node_of Hleaf Hbranch t).
+Proof. intros Hh. unfold build. rewrite builder_sound by assumption. reflexivity. Qed.
+End REFUSE.
+
+(* ------------------------------------------------------------------ key pair tweak = secret of the output key *)
+Section KEYPAIR.
+Variable Htweak : bytes -> bytes.
+Variable scalar_ok : bytes -> bool.
+Variable pt : Type.
+Variable padd : pt -> pt -> pt.
+Variable pneg : pt -> pt.
+Variable mulG : Z -> pt.
+Variable xonly_of : pt -> option (bytes * bool).
+Variable lift_x : bytes -> option pt.
+Hypothesis mulG_add : forall a b, mulG (a + b) = padd (mulG a) (mulG b).
+Hypothesis mulG_neg : forall a, mulG (- a) = pneg (mulG a).
+Hypothesis lift_even : forall s x par, xonly_of (mulG s) = Some (x, par) -> lift_x x = Some (if par then pneg (mulG s) else mulG s).
+Theorem keypair_tweak_is_secret sk root sk' :
+  keypair_tap_tweak Htweak scalar_ok pt mulG xonly_of sk root = Val sk' ->
+  exists P par0 Q par, kp_xonly pt mulG xonly_of sk = Some (P, par0) /\
+    tap_tweak Htweak scalar_ok (xonly_tweak pt padd mulG xonly_of lift_x) P root = Val (Q, par) /\
+    kp_xonly pt mulG xonly_of sk' = Some (Q, par).
+Proof. unfold keypair_tap_tweak, kp_add_xonly_tweak, tap_tweak. destruct (kp_xonly pt mulG xonly_of sk) as [[P par0]|] eqn:K; [|discriminate].
+  destruct (scalar_ok _) eqn:S; [|discriminate].
+  destruct (xonly_of (mulG ((if par0 then - sk else sk) + scalar_of (tap_tweak_hash Htweak P root)))) as [[Q par]|] eqn:X; [|discriminate].
+  intros E; inversion E; subst sk'. exists P, par0, Q, par. split; [reflexivity|]. unfold kp_xonly in *. rewrite X. split; [|reflexivity].
+  cbv zeta. rewrite S. unfold xonly_tweak. rewrite (lift_even _ _ _ K). rewrite mulG_add in X. destruct par0; [rewrite mulG_neg in X|]; rewrite X; reflexivity. Qed.
+End KEYPAIR.
